@@ -246,6 +246,9 @@ def run(tier):
     from . import quoting
     nq_ = quoting.check(rep, F)
     rep.floor("quoted-scalar content cases", nq_, 100)
+    # inside a word of a plain scalar '#' is content: the comment test is reached from a content character only across a blank or break
+    from . import plainword
+    rep.floor("plain-word paths", plainword.check(rep, F), 20)
     rep.extra["escape_table"] = {("\\" + (chr(k) if k > 32 else "x%02x" % k)): "U+%04X" % v for k, v in sorted(named.items())}
     rep.extra["hex_lengths"] = {"\\" + chr(k): v for k, v in sorted(hexlen.items())}
     return rep
